@@ -23,7 +23,11 @@ static std::string describe_walk(int upto) { std::string p; for (int i = 0; i <=
 static void describe_for_crash() { if (!CURLEN) return; const Tr& t = *CUR[CURSTEP < CURLEN ? CURSTEP : CURLEN - 1]; Proto::sanitize(Proto::g_site, sizeof Proto::g_site, site_of(t)); Proto::sanitize(Proto::g_detail, sizeof Proto::g_detail, "n=" + std::to_string(N) + " walk: " + describe_walk(CURSTEP)); }
 static long long STEPS = 0;
 struct Obj { std::vector<unsigned char> mem; std::unique_ptr<MemoryWriter> fixed; std::unique_ptr<DynamicMemoryWriter> grow; };
-static Obj fresh() { Obj o; if (MACHINE == "fixed") { o.mem.assign(N + 2 * G, 0); for (int i = 0; i < G; ++i) { o.mem[i] = 0xC1; o.mem[G + N + i] = 0xC2; } o.fixed = std::make_unique<MemoryWriter>(o.mem.data() + G, N); } else o.grow = std::make_unique<DynamicMemoryWriter>(); return o; }
+static Obj fresh(long long k) { Obj o; if (MACHINE == "fixed") { o.mem.assign(N + 2 * G, 0); for (int i = 0; i < G; ++i) { o.mem[i] = 0xC1; o.mem[G + N + i] = 0xC2; } o.fixed = std::make_unique<MemoryWriter>(o.mem.data() + G, N); } else {
+		// the preallocation hint of the second constructor is not part of the specification's state: GrowInit is the empty writer whatever the hint
+		static const std::size_t HINTS[] = {0, 1, 7, 64, 4096}; const int v = (int)(k % 6);
+		if (v == 0) o.grow = std::make_unique<DynamicMemoryWriter>(); else o.grow = std::make_unique<DynamicMemoryWriter>(HINTS[v - 1]); }
+	return o; }
 static bool apply(Obj& o, const Tr& t, int step) {
 	++STEPS; CURSTEP = step; BidirectionalWriter& w = o.fixed ? static_cast<BidirectionalWriter&>(*o.fixed) : static_cast<BidirectionalWriter&>(*o.grow);
 	bool ok = true; static unsigned char src[64];
@@ -52,11 +56,11 @@ int main(int argc, char** argv) {
 	long long walks = 0, caseNo = 0; std::vector<const Tr*> pre;
 	std::function<void(int, bool)> dfs = [&](int st, bool dead) { if ((int)pre.size() == depth) return;
 		for (const Tr& t : REL[st]) { pre.push_back(&t); long long k = caseNo++; bool deadHere = dead || SKIP_SITES.count(site_of(t)) > 0; bool good = true;
-			if (!deadHere && Proto::begin_case_fast(k)) { if ((k & 1023) == 0) alarm((unsigned)Proto::g_watchdog_s); CURLEN = (int)pre.size(); for (int i = 0; i < CURLEN; ++i) CUR[i] = pre[i]; Obj o = fresh(); for (int i = 0; i < CURLEN && good; ++i) good = apply(o, *pre[i], i); ++walks; }
+			if (!deadHere && Proto::begin_case_fast(k)) { if ((k & 1023) == 0) alarm((unsigned)Proto::g_watchdog_s); CURLEN = (int)pre.size(); for (int i = 0; i < CURLEN; ++i) CUR[i] = pre[i]; Obj o = fresh(k); for (int i = 0; i < CURLEN && good; ++i) good = apply(o, *pre[i], i); ++walks; }
 			dfs(t.toId, deadHere || !good); pre.pop_back(); } };
 	dfs(initId, false);
 	std::mt19937_64 rng(Proto::g_seed * 104729 + 5);
 	for (long wk = 0; wk < randomWalks; ++wk) { long long k = caseNo++; std::vector<const Tr*> path; int st = initId; std::mt19937_64 wr(rng()); for (int i = 0; i < randomLen; ++i) { auto& out = REL[st]; if (out.empty()) break; const Tr* t = &out[wr() % out.size()]; if (SKIP_SITES.count(site_of(*t))) continue; path.push_back(t); st = t->toId; }
-		if (!Proto::begin_case_fast(k)) continue; alarm((unsigned)Proto::g_watchdog_s); CURLEN = (int)std::min<std::size_t>(path.size(), 64); for (int i = 0; i < CURLEN; ++i) CUR[i] = path[i]; Obj o = fresh(); bool good = true; for (int i = 0; i < CURLEN && good; ++i) good = apply(o, *path[i], i); ++walks; }
+		if (!Proto::begin_case_fast(k)) continue; alarm((unsigned)Proto::g_watchdog_s); CURLEN = (int)std::min<std::size_t>(path.size(), 64); for (int i = 0; i < CURLEN; ++i) CUR[i] = path[i]; Obj o = fresh(k); bool good = true; for (int i = 0; i < CURLEN && good; ++i) good = apply(o, *path[i], i); ++walks; }
 	std::size_t ntr = 0; for (auto& v : REL) ntr += v.size();
 	Proto::summary({{"machine", MACHINE}, {"states", REL.size()}, {"transitions", ntr}, {"walks", walks}, {"cases", caseNo}, {"steps", STEPS}, {"depth", depth}}); return 0; }
